@@ -476,6 +476,14 @@ def run(ctx):
             d1 = [dele, next(iter(gene.alleles[dele].minors)), [], []]
             o = next(a for a in gene.alleles if a != dele)
             fixed = [[d1], [d1, d1], [d1, [o, next(iter(gene.alleles[o].minors)), [], []]]]
+            # a listed tandem next to a called deletion copy (more than two copies: the tandem must stay on one haplotype)
+            key_of = lambda a: (lambda c: c[1] if c[0] == "" else c[0])(chunks(a.split("#")[0]))  # noqa: E731
+            for ta, tb in list(gene.common_tandems)[:3]:
+                xa = next((a for a in gene.alleles if a != dele and key_of(a) == str(ta)), None)
+                xb = next((a for a in gene.alleles if a != dele and key_of(a) == str(tb) and a != xa), None)
+                if xa and xb:
+                    ea, eb = ([x, next(iter(gene.alleles[x].minors)), [], []] for x in (xa, xb))
+                    fixed += [[ea, eb, d1], [ea, eb, d1, d1]]
         for it in range(per_gene + len(fixed)):
             if it < len(fixed):
                 bag = fixed[it]
